@@ -23,7 +23,7 @@ EXPLANATION = (
     "SourcedMessage, and data dependence of offsets yielded from compressed wrappers. Each rule is a necessary "
     "condition of the delivery property; whole-history gap freedom is not decided."
 )
-SHARED = [('C13', ['R9'], 'the processor is never invoked from a continuation that runs because stop() cancelled a Deferred (previous result still pending)'), ('C05', ['R4'], 'compressed wrappers are decoded completely and by the right codec'), ('C12', ['R3', 'R7'], 'a partial trailing message is never skipped: too-small signal, buffer grows, same offset refetched'), ('C14', ['R4', 'R5', 'R7'], 'the offset-reset policy is the only discontinuity; buffer growth refetches the same offset'), ('C03', ['R2'], 'a cancelled block is not followed by another invocation: stop() must not feed the next block')]
+SHARED = [('C13', ['R1', 'R5'], 'stop() cancels the pending processor invocation (a restart cannot overlap it) and the shutdown flag never leaks into the next run (whose first reply would be dropped)'), ('C03', ['R5', 'R6'], 'a committed offset - 0 included - is the position after which the consumer resumes'), ('C13', ['R9'], 'the processor is never invoked from a continuation that runs because stop() cancelled a Deferred (previous result still pending)'), ('C05', ['R4'], 'compressed wrappers are decoded completely and by the right codec'), ('C12', ['R3', 'R7'], 'a partial trailing message is never skipped: too-small signal, buffer grows, same offset refetched'), ('C14', ['R4', 'R5', 'R7'], 'the offset-reset policy is the only discontinuity; buffer growth refetches the same offset'), ('C03', ['R2'], 'a cancelled block is not followed by another invocation: stop() must not feed the next block')]
 ASSUMPTIONS = [
     "Twisted: a failed/pending Deferred yielded in an inlineCallbacks generator suspends the generator",
     "KafkaClient.send_* return Deferreds; the broker's log order is ground truth (not modelled)",
